@@ -4,7 +4,7 @@
     Vocabulary (C16/Model.v = the Go code as it is, C16/Spec.v = the specification):
       [load cfg_kid file]          jwtSigner.load up to the swap: Ok new-fields | Err | Panic
       [sign st iss sub ttl now jti custom]   jwtSigner.Sign on the fields it read
-      [run cfg file ops]           newJWTFinalizer, then Execute / file replaced + OnChanged / GET JWKS
+      [run fixed cfg file ops]     ([fixed] = with the repair of C16-F1?) newJWTFinalizer, then Execute / file replaced + OnChanged / GET JWKS
       [spec_accept cfg_kid file]   the usable store and its active entry (by key id, else the first)
       [run_ok]                     what every observation of a run must look like
       [guard_F1]                   the inputs of finding C16-F1 (token reuse across a same-kid key change)
@@ -48,6 +48,12 @@ Theorem C16_load_accepts_exactly_usable : forall cfg_kid f st,
 Proof. exact load_iff. Qed.
 Print Assumptions C16_load_accepts_exactly_usable.
 
+(** no input makes load panic (the key store rejects empty stores and unsupported key
+    sizes since the fixes for C19-F1/F2; the model keeps the two panic sites) *)
+Theorem C16_load_never_panics : forall cfg_kid f, load cfg_kid f <> Panic.
+Proof. exact load_no_panic. Qed.
+Print Assumptions C16_load_never_panics.
+
 (** a token names the active key's id and algorithm and is signed with its private key;
     the active entry is the one with the configured key id, else the first *)
 Theorem C16_header_names_active_key : forall cfg_kid f st iss sub ttl now jti custom t,
@@ -88,9 +94,16 @@ Print Assumptions C16_jwks_public_only.
     the last accepted store; unusable files change nothing *)
 Theorem C16_run_meets_spec : forall c f ops,
   guard_F1 c f ops = false ->
-  run_ok c f ops (fst (run c f ops)) (snd (run c f ops)) = true.
+  run_ok c f ops (fst (run false c f ops)) (snd (run false c f ops)) = true.
 Proof. exact run_meets_spec. Qed.
 Print Assumptions C16_run_meets_spec.
+
+(** with the repair proposed in fixes/C16-F1.diff (the token cache key also covers the
+    key itself) the same holds for all histories, without any guard *)
+Theorem C16_run_meets_spec_repaired : forall c f ops,
+  run_ok c f ops (fst (run true c f ops)) (snd (run true c f ops)) = true.
+Proof. exact run_meets_spec_fixed. Qed.
+Print Assumptions C16_run_meets_spec_repaired.
 
 (** C16-F1: with token reuse, a reload that keeps key id and algorithm but replaces the
     key lets the finalizer hand out a token of the replaced key, which does not verify
@@ -98,10 +111,10 @@ Print Assumptions C16_run_meets_spec.
 Theorem C16_F1_refuted :
   exists c f ops t,
     guard_F1 c f ops = true /\
-    nth_error (snd (run c f ops)) 3 = Some (XToken t false) /\
-    nth_error (snd (run c f ops)) 2 = Some (XJwks [spec_jwk (f1_entry 11)]) /\
+    nth_error (snd (run false c f ops)) 3 = Some (XToken t false) /\
+    nth_error (snd (run false c f ops)) 2 = Some (XJwks [spec_jwk (f1_entry 11)]) /\
     t_key t = Priv (r_key (f1_entry 10)) /\
-    run_ok c f ops (fst (run c f ops)) (snd (run c f ops)) = false.
+    run_ok c f ops (fst (run false c f ops)) (snd (run false c f ops)) = false.
 Proof. exact F1_refuted. Qed.
 Print Assumptions C16_F1_refuted.
 
@@ -109,7 +122,7 @@ Print Assumptions C16_F1_refuted.
 Theorem C16_nonvacuous :
   guard_F1 nv_cfg (PemOk [nv_entry 3 "old"]) nv_ops = false /\
   exists t1 t2,
-    snd (run nv_cfg (PemOk [nv_entry 3 "old"]) nv_ops) =
+    snd (run false nv_cfg (PemOk [nv_entry 3 "old"]) nv_ops) =
       [XToken t1 true; XToken t1 true; XDone; XToken t2 true;
        XJwks [spec_jwk (nv_entry 5 "other"); spec_jwk (nv_entry 4 "new"); spec_jwk (nv_entry 3 "old")]] /\
     t_kid t1 = "old" /\ t_kid t2 = "new" /\ t_alg t2 = "PS384" /\
